@@ -820,7 +820,7 @@ impl OsIpcOneShotServer {
         unsafe {
             let sockaddr: *mut sockaddr = ptr::null_mut();
             let sockaddr_len: *mut socklen_t = ptr::null_mut();
-            let client_fd = libc::accept(self.fd, sockaddr, sockaddr_len);
+            let client_fd = libc::accept4(self.fd, sockaddr, sockaddr_len, SOCK_FLAGS);
             if client_fd < 0 {
                 return Err(UnixError::last());
             }
@@ -953,7 +953,10 @@ impl Clone for OsIpcSharedMemory {
         #[allow(unused_imports)]
         use crate::verif::sys as libc;
         unsafe {
-            let store = BackingStore::from_fd(libc::dup(self.store.fd()));
+            // Like every other descriptor we create, the duplicate must not leak into
+            // child processes the program spawns: plain dup() would clear close-on-exec.
+            let store =
+                BackingStore::from_fd(libc::fcntl(self.store.fd(), libc::F_DUPFD_CLOEXEC, 0));
             let (address, _) = store.map_file(Some(self.length));
             OsIpcSharedMemory::from_raw_parts(address, self.length, store)
         }
